@@ -234,6 +234,14 @@ func (chain *BlockChain) connectBestChain(node *blockNode, block *types.BlockDet
 		iSideChain = false
 	}
 	fork := chain.bestChain.FindFork(node)
+	if fork == nil {
+		// an ancestor of this block was deleted from the index (execution of a "download" block
+		// failed), so its ancestry no longer reaches the best chain: it can neither be kept as a
+		// side chain block nor be reorganised to (nil fork: panic below / detaching the whole chain)
+		chainlog.Error("connectBestChain fork point not found", "nodeHeight", node.height, "nodeHash", common.ToHex(node.hash))
+		chain.index.DelNode(node.hash)
+		return nil, false, types.ErrParentBlockNoExist
+	}
 	finalized, hash := chain.finalizer.getLastFinalized()
 	if iSideChain || node.height < finalized+12 {
 
